@@ -16,10 +16,10 @@ func init() {
 		DesignRef: "DESIGN.md §5 C51",
 		Level: "Decides that the eight custom encoders are registered under type names that exist (a renamed type would silently fall back to reflection, which cannot encode NaN/Inf) and cast to the type they are registered for, that MarshalFloat writes every value with strconv.AppendFloat(…, -1, 64) between quotes on every path (the only formatter that keeps −0, NaN payload class, infinities and all 17 significant digits), " +
 			"and that the value, histogram bounds/counts/sum and exemplar encoders delegate to MarshalFloat / MarshalTimestamp / MarshalHistogram rather than formatting numbers themselves.",
-		Note:     "Trusted: go/packages, go/types, go/cfg; rule tables in checker/c51.go.",
-		Covers:   "web/api/v1/json_codec.go registrations and encoders; util/jsonutil MarshalFloat, MarshalTimestamp, MarshalHistogram.",
-		NotCover: "that the decimal text decodes to the same bits (property of strconv), millisecond arithmetic of MarshalTimestamp, bucket boundary values.",
-		Run:      runC51,
+		Note:           "Trusted: go/packages, go/types, go/cfg; rule tables in checker/c51.go.",
+		Covers:         "web/api/v1/json_codec.go registrations and encoders; util/jsonutil MarshalFloat, MarshalTimestamp, MarshalHistogram.",
+		NotCover:       "that the decimal text decodes to the same bits (property of strconv), millisecond arithmetic of MarshalTimestamp, bucket boundary values.",
+		Run:            runC51,
 		MinObligations: 20,
 	})
 }
